@@ -54,10 +54,10 @@ type Decoded struct {
 }
 
 type dirState struct {
-	buf   []byte
-	hs    []byte
-	half  HalfState
-	ccs   bool
+	buf  []byte
+	hs   []byte
+	half HalfState
+	ccs  bool
 }
 
 // DecodeSession replays a capture. masters are candidate master secrets (from the key log); encKey is the
